@@ -97,7 +97,7 @@ def classes():
 # op = tuple; operands: ('s', (tags...)) an object of the same class holding the tags | ('o', k) something else
 #   ('G', i) ('S', a, b, c) ('I',) ('L',) ('T', i, v) ('D', i) ('X', a, b, c) ('A', v) ('E', v) ('N', i, v)
 #   ('P', i) ('R',) ('C',) ('CI',) ('CC',) ('CF', tags) ('AL', n) ('EM',)
-EXC = {'IndexError': 1, 'ValueError': 2, 'TypeError': 3, 'AssertionError': 4}
+EXC = {'IndexError': 1, 'ValueError': 2, 'TypeError': 3, 'AssertionError': 4, 'StopIteration': 5}
 # root causes the model still mirrors.  (Repaired in /repo and therefore NOT listed, so that a regression is a VIOLATION:
 # slice index arithmetic -- fix 639aa3a; extend by a single-valued object appending matrix rows -- fix e8a8671;
 # empty slice of the SpatialVector classes raising IndexError -- fix 40af48b;
@@ -105,7 +105,7 @@ EXC = {'IndexError': 1, 'ValueError': 2, 'TypeError': 3, 'AssertionError': 4}
 # Nothing is left: the model equals the specification for every operation (C10_step_refines), so ANY difference between the
 # implementation and the list is a VIOLATION.
 KEYS = {}
-OPNAME = {'G': 'getitem', 'S': 'getitem-slice', 'I': 'iter', 'L': 'len', 'T': 'setitem', 'D': 'delitem', 'X': 'delitem-slice',
+OPNAME = {'G': 'getitem', 'S': 'getitem-slice', 'I': 'iter', 'RV': 'reversed', 'IN': 'iter-new', 'IX': 'iter-next', 'L': 'len', 'T': 'setitem', 'D': 'delitem', 'X': 'delitem-slice',
           'A': 'append', 'E': 'extend', 'N': 'insert', 'P': 'pop', 'R': 'reverse', 'C': 'clear', 'CI': 'ctor-from-iteration',
           'CC': 'copy-ctor', 'CF': 'ctor-from-list', 'AL': 'Alloc', 'EM': 'Empty'}
 
@@ -194,7 +194,7 @@ def op_coq(op):
         return f'CtorFrom {zl(op[1])}'
     if k == 'AL':
         return f'Alloc {zs(op[1])}'
-    return {'I': 'Iter', 'L': 'Len', 'R': 'Reverse', 'C': 'Clear', 'CI': 'CtorIter', 'CC': 'CtorCopy', 'EM': 'Empty'}[k]
+    return {'I': 'Iter', 'RV': 'IterRev', 'L': 'Len', 'R': 'Reverse', 'C': 'Clear', 'CI': 'CtorIter', 'CC': 'CtorCopy', 'EM': 'Empty'}[k]
 
 
 def op_py(op):
@@ -202,7 +202,7 @@ def op_py(op):
     k = op[0]
     sl = lambda a, b, c: f"{'' if a is None else a}:{'' if b is None else b}" + ('' if c is None else f':{c}')
     v = lambda w: 'OTHER' if w[0] == 'o' else ('EMPTY' if not w[1] else ('elem(%d)' % w[1][0] if len(w[1]) == 1 else 'multi%s' % (list(w[1]),)))
-    return {'G': lambda: f'x[{op[1]}]', 'S': lambda: f'x[{sl(*op[1:])}]', 'I': lambda: 'list(iter(x))', 'L': lambda: 'len(x)',
+    return {'G': lambda: f'x[{op[1]}]', 'S': lambda: f'x[{sl(*op[1:])}]', 'I': lambda: 'list(iter(x))', 'RV': lambda: 'list(reversed(x))', 'L': lambda: 'len(x)',
             'T': lambda: f'x[{op[1]}] = {v(op[2])}', 'D': lambda: f'del x[{op[1]}]', 'X': lambda: f'del x[{sl(*op[1:])}]',
             'A': lambda: f'x.append({v(op[1])})', 'E': lambda: f'x.extend({v(op[1])})', 'N': lambda: f'x.insert({op[1]}, {v(op[2])})',
             'P': lambda: f'x.pop({op[1]})', 'R': lambda: 'x.reverse()', 'C': lambda: 'x.clear()', 'CI': lambda: 'x = cls([e for e in x])',
@@ -224,9 +224,26 @@ def enc_obj(k, r):
     return [1] + st
 
 
-def impl_step(k, x, op):
-    """apply op to the real object; returns (object afterwards, encoded outcome ++ encoded state)"""
+def shares_state(k, x, r):
+    """does the result r share state with the receiver x?  (a list element read / slice / pop / iteration item of a Python list
+    never aliases the list.)  Observed behaviourally in both directions, then undone."""
+    if r is x or r.data is x.data:
+        return True
+    nx, nr = len(x.data), len(r.data)
+    r.data.append(None)
+    bad = len(x.data) != nx
+    r.data.pop()
+    x.data.append(None)
+    bad = bad or len(r.data) != nr
+    x.data.pop()
+    return bad
+
+
+def impl_step(k, x, op, keep=None):
+    """apply op to the real object; returns (object afterwards, encoded outcome ++ encoded state).
+    keep: a list that receives the object-valued results (they stay alive and are addressed by later operations)"""
     kind = op[0]
+    results = []
     operand = None
     if kind in ('T', 'N'):
         operand = make_operand(k, op[2])
@@ -236,12 +253,17 @@ def impl_step(k, x, op):
     try:
         r = None
         if kind == 'G':
-            out = enc_obj(k, x[op[1]])
+            r = x[op[1]]
+            results.append(r)
+            out = enc_obj(k, r)
         elif kind == 'S':
-            out = enc_obj(k, x[slice(op[1], op[2], op[3])])
-        elif kind == 'I':
+            r = x[slice(op[1], op[2], op[3])]
+            results.append(r)
+            out = enc_obj(k, r)
+        elif kind in ('I', 'RV'):
             out = [2, 0]
-            for e in x:
+            for e in (x if kind == 'I' else reversed(x)):
+                results.append(e)
                 o = enc_obj(k, e)
                 out += o[1:] if o[0] == 1 else [-70]
                 out[1] += 1
@@ -249,6 +271,7 @@ def impl_step(k, x, op):
             out = [3, len(x)]
         elif kind == 'P':
             r = x.pop() if (op[1] == -1 and len(op) > 2) else x.pop(op[1])
+            results.append(r)
             out = enc_obj(k, r)
         else:
             if kind == 'T':
@@ -291,6 +314,12 @@ def impl_step(k, x, op):
                 out = [7, 0]
     except Exception as ex:  # noqa: the exception kind IS the observation
         out = [9, EXC.get(type(ex).__name__, 99)]
+    if out[0] in (1, 2):
+        objs = [r for r in results if type(r) is k.cls]
+        if any(shares_state(k, x, r) for r in objs) or any(a.data is b.data for i, a in enumerate(objs) for b in objs[:i]):
+            out = [64]                                 # a result shares state with the receiver (or with another result)
+    if keep is not None and out[0] in (1, 2):
+        keep.extend(results)
     return x, out + k.state(x)
 
 
@@ -312,6 +341,10 @@ def list_step(l, op):
         elif kind == 'I':
             out = [2, len(l)]
             for e in l:
+                out += [1, e]
+        elif kind == 'RV':
+            out = [2, len(l)]
+            for e in reversed(l):
                 out += [1, e]
         elif kind == 'L':
             out = [3, len(l)]
@@ -351,12 +384,12 @@ def list_step(l, op):
 
 
 # --------------------------------------------------------------------------------------------- the Coq model, executed
-EXTRACT = """From SM Require Import Model.C10_PyList Model.C10_SMList.
+EXTRACT = """From SM Require Import Model.C10_PyList Model.C10_SMList Model.C10_World.
 Require Extraction.
 Require Import ExtrOcamlBasic.
 Extraction Language OCaml.
 Set Extraction Output Directory ".".
-Extraction "c10_ml.ml" lockstep.
+Extraction "c10_ml.ml" lockstep wlockstep wstart.
 """
 
 DRIVER = r"""
@@ -374,15 +407,19 @@ let run line =
   let zlist () = let k = int_of_string (next ()) in
     let rec go i acc = if i = k then List.rev acc else (let v = zint () in go (i + 1) (v :: acc)) in go 0 [] in
   let operand () = let t = next () in if t = "o" then Other else Same (zlist ()) in
+  let rec nat_of_int n = if n <= 0 then O else S (nat_of_int (n - 1)) in
+  let world = (toks.(0) = "W") in
+  if world then incr pos;
   let own = (next () = "1") in
   let n0 = int_of_string (next ()) in
   let ops = ref [] in
-  while !pos < Array.length toks do
-    let t = next () in
-    let o = match t with
+  let wops = ref [] in
+  let parse_op t =
+    match t with
       | "G" -> GetItem (zint ())
       | "S" -> let a = optz () in let b = optz () in let c = optz () in GetSlice (a, b, c)
       | "I" -> Iter
+      | "RV" -> IterRev
       | "L" -> Len
       | "T" -> let i = zint () in let v = operand () in SetItem (i, v)
       | "D" -> DelItem (zint ())
@@ -399,20 +436,30 @@ let run line =
       | "AL" -> Alloc (zint ())
       | "EM" -> Empty
       | _ -> failwith ("bad op token " ^ t) in
-    ops := o :: !ops
+  while !pos < Array.length toks do
+    let t = next () in
+    if world then begin
+      let a = match t with
+        | "O" -> let tg = nat_of_int (int_of_string (next ())) in let o = parse_op (next ()) in On (tg, o)
+        | "IN" -> ItNew (nat_of_int (int_of_string (next ())))
+        | "IX" -> ItNext (nat_of_int (int_of_string (next ())))
+        | _ -> failwith ("bad world op token " ^ t) in
+      wops := a :: !wops
+    end else ops := parse_op t :: !ops
   done;
   let st = List.init n0 (fun k -> z_of_int (k + 1)) in
-  let res = lockstep own st (List.rev !ops) in
+  let per = if world then 2 else 3 in
+  let res = if world then wlockstep own (wstart (z_of_int n0)) (List.rev !wops) else lockstep own st (List.rev !ops) in
   let b = Buffer.create 256 in
   List.iteri (fun i l ->
-    if i > 0 then Buffer.add_char b (if i mod 3 = 0 then '|' else ',');
+    if i > 0 then Buffer.add_char b (if i mod per = 0 then '|' else ',');
     List.iteri (fun j z -> if j > 0 then Buffer.add_char b ' '; Buffer.add_string b (string_of_int (int_of_z z))) l) res;
   print_string (Buffer.contents b); print_newline ()
 let () =
   try while true do run (input_line stdin) done with End_of_file -> ()
 """
 
-COQ_HEADER = ("From Coq Require Import ZArith List.\nFrom SM Require Import Model.C10_PyList Model.C10_SMList.\n"
+COQ_HEADER = ("From Coq Require Import ZArith List.\nFrom SM Require Import Model.C10_PyList Model.C10_SMList Model.C10_World.\n"
               "Import ListNotations.\nOpen Scope Z_scope.\n")
 
 
@@ -513,7 +560,7 @@ def alphabet(depth, level):
         return [('G', -1), ('S', 1, 3, None), ('I',), ('T', 0, s1()), ('D', -1), ('A', s1(1)), ('E', m2), ('N', 1, s1(2)),
                 ('P', -1, 'default'), ('P', 0), ('R',), ('CI',)]
     if level == 'mid':
-        return [('G', -1), ('G', 0), ('G', 3), ('S', None, -1, None), ('S', 1, 3, None), ('S', None, None, -1), ('I',),
+        return [('G', -1), ('G', 0), ('G', 3), ('S', None, -1, None), ('S', 1, 3, None), ('S', None, None, -1), ('I',), ('RV',),
                 ('T', -1, s1()), ('T', 2, s1()), ('T', 0, m2), ('D', 0), ('D', -1), ('D', 3),
                 ('A', s1(1)), ('A', ot(0)), ('A', em), ('E', s1(2)), ('E', m2), ('E', em),
                 ('N', 0, s1(3)), ('N', -1, s1(3)), ('N', 9, s1(3)), ('P', -1, 'default'), ('P', 0), ('P', 3),
@@ -521,7 +568,7 @@ def alphabet(depth, level):
     a = [('G', i) for i in I_FULL]
     a += [('S',) + s for s in [(None, None, None), (1, None, None), (None, -1, None), (None, None, 2), (None, None, -1), (1, 3, None),
                                (-2, None, None), (2, 2, None), (0, 9, None), (None, None, 0)]]
-    a += [('I',), ('L',)]
+    a += [('I',), ('RV',), ('L',)]
     a += [('T', i, s1()) for i in (-5, -1, 0, 2, 4)] + [('T', 0, m2), ('T', 0, ot(0)), ('T', 0, em), ('T', 9, m2)]
     a += [('D', i) for i in (-5, -1, 0, 2, 4)] + [('X', 1, 3, None), ('X', None, None, 2), ('X', None, None, -2)]
     a += [('A', s1(1)), ('A', m2), ('A', ot(1)), ('A', em)]
@@ -606,9 +653,11 @@ def random_ops(rng, nsteps):
             return int(rng.integers(-7, 8))
         return idx()
 
-    kinds = ['G', 'S', 'I', 'L', 'T', 'D', 'X', 'A', 'E', 'N', 'P', 'R', 'C', 'CI', 'CC', 'CF', 'AL', 'EM']
-    w = np.array([12, 12, 3, 2, 10, 6, 3, 12, 9, 10, 10, 3, 0.7, 2, 1, 1.5, 0.5, 0.5])
-    for _ in range(nsteps):
+    kinds = ['G', 'S', 'I', 'L', 'T', 'D', 'X', 'A', 'E', 'N', 'P', 'R', 'C', 'CI', 'CC', 'CF', 'AL', 'EM', 'RV']
+    w = np.array([12, 12, 3, 2, 10, 6, 3, 12, 9, 10, 10, 3, 0.7, 2, 1, 1.5, 0.5, 0.5, 2])
+
+    def draw():
+        nonlocal l
         ww = w.copy()
         if len(l) > 9:
             ww[[7, 8, 9]] *= 0.2
@@ -633,6 +682,16 @@ def random_ops(rng, nsteps):
             op = ('AL', int(rng.integers(0, 4)))
         else:
             op = (kd,)
+        return op
+
+    if nsteps is None:            # world histories: hand out the generator (the caller sets the list the indices refer to)
+        def draw_on(target_list):
+            nonlocal l
+            l = target_list
+            return draw()
+        return n0, draw_on
+    for _ in range(nsteps):
+        op = draw()
         ops.append(op)
         l, _ = list_step(l, op)
     return n0, ops
@@ -738,6 +797,330 @@ def kernel_crosscheck(ctx, model, ks, nseq):
                          {'start_length': n0, 'ops': [op_py(o) for o in ops], 'driver': dv, 'kernel': exp}, no_input=True)
 
 
+# --------------------------------------------------------------------------------------------- worlds: several live objects + iterators
+# world op:  ('O', t, op) operation on object t | ('IN', t) it = iter(object t) | ('IX', j) next(iterator j)
+CTORS = ('CI', 'CC', 'CF', 'AL', 'EM')
+
+
+def wop_tokens(a):
+    return f'O {a[1]} {op_tokens(a[2])}' if a[0] == 'O' else f'{a[0]} {a[1]}'
+
+
+def wop_coq(a):
+    return f'On {a[1]} ({op_coq(a[2])})' if a[0] == 'O' else ('ItNew %d' % a[1] if a[0] == 'IN' else 'ItNext %d' % a[1])
+
+
+def wop_py(a):
+    if a[0] == 'O':
+        return f'obj{a[1]}: ' + op_py(a[2]).replace('x', f'obj{a[1]}', 1) if False else f'[obj{a[1]} as x] ' + op_py(a[2])
+    return f'it{"" if a[0] == "IN" else a[1]} = iter(obj{a[1]})' if a[0] == 'IN' else f'next(it{a[1]})'
+
+
+def wnorm(a, enc):
+    return norm(a[2], enc) if a[0] == 'O' else list(enc)
+
+
+class ImplWorld:
+    """real objects and real iterators; every object-valued result stays alive as a new object"""
+
+    def __init__(self, k, n0):
+        self.k = k
+        self.objs = [k.build(list(range(1, n0 + 1)))]
+        self.its, self.it_obj = [], []
+
+    def sig(self, u):
+        return tuple(id(a) for a in self.objs[u].data)
+
+    def step(self, a):
+        k = self.k
+        before = [self.sig(u) for u in range(len(self.objs))]
+        news = []
+        if a[0] == 'O':
+            t, op = a[1], a[2]
+            x = self.objs[t]
+            keep = []
+            x2, enc = impl_step(k, x, op, keep)
+            nst = len(k.state(x2))
+            out, tgt = enc[:len(enc) - nst], enc[len(enc) - nst:]
+            if op[0] in CTORS:
+                if out == [0]:
+                    news = [x2]
+                tgt = k.state(x)
+            else:
+                news = keep[:2] if op[0] in ('I', 'RV') else keep
+            skip = None if op[0] in CTORS else t
+        elif a[0] == 'IN':
+            t = a[1]
+            it = iter(self.objs[t])
+            self.its.append(it)
+            self.it_obj.append(t)
+            out, tgt, skip = [0], k.state(self.objs[t]), None
+        else:
+            j = a[1]
+            t = self.it_obj[j]
+            try:
+                r = next(self.its[j])
+                out = enc_obj(k, r)
+                if out[0] == 1:
+                    if shares_state(k, self.objs[t], r):
+                        out = [64]
+                    news = [r]
+            except Exception as ex:  # noqa
+                out = [9, EXC.get(type(ex).__name__, 99)]
+            tgt, skip = k.state(self.objs[t]), None
+        # frame: no other object may have changed
+        for u, sg in enumerate(before):
+            if u != skip and self.sig(u) != sg:
+                out = [64, u]
+                break
+        self.objs.extend(news)
+        enc = out + tgt + [len(news)]
+        for r in news:
+            enc += k.state(r) if type(r) is k.cls else [-70]
+        return enc
+
+
+class ListWorld:
+    """the reference: real Python lists and real list iterators"""
+
+    def __init__(self, n0):
+        self.objs = [list(range(1, n0 + 1))]
+        self.its, self.it_obj = [], []
+
+    def step(self, a):
+        news = []
+        if a[0] == 'O':
+            t, op = a[1], a[2]
+            l = self.objs[t]
+            before = list(l)
+            l2, enc = list_step(l, op)
+            out, tgt = enc[:len(enc) - len(l2) - 1], enc[len(enc) - len(l2) - 1:]
+            if op[0] in CTORS:
+                if out == [0]:
+                    news = [l2]
+                tgt = [len(before)] + before
+            elif out[0] == 1:
+                news = [out[2:]]
+            elif out[0] == 2:
+                items, p = [], 2
+                for _ in range(out[1]):
+                    items.append(out[p + 1:p + 1 + out[p]])
+                    p += 1 + out[p]
+                news = items[:2]
+        elif a[0] == 'IN':
+            t = a[1]
+            self.its.append(iter(self.objs[t]))
+            self.it_obj.append(t)
+            out, tgt = [0], [len(self.objs[t])] + self.objs[t]
+        else:
+            j = a[1]
+            t = self.it_obj[j]
+            try:
+                v = next(self.its[j])
+                out, news = [1, 1, v], [[v]]
+            except StopIteration:
+                out = [9, 5]
+            tgt = [len(self.objs[t])] + self.objs[t]
+        self.objs.extend(news)
+        enc = out + tgt + [len(news)]
+        for r in news:
+            enc += [len(r)] + list(r)
+        return enc
+
+
+def parse_world_line(line):
+    steps = []
+    if not line:
+        return steps
+    for st in line.split('|'):
+        m, s = st.split(',')
+        steps.append(([int(t) for t in m.split()], [int(t) for t in s.split()]))
+    return steps
+
+
+def model_world_run(model, own, cases):
+    lines = [f"W {1 if own else 0} {n0} " + ' '.join(wop_tokens(a) for a in ops) for n0, ops in cases]
+    with model.ctx.timed('model-driver'):
+        outs = model.ctx.run_driver(model.exe, lines, timeout=1800) if lines else []
+    if len(outs) != len(lines):
+        raise RuntimeError(f'driver returned {len(outs)} lines for {len(lines)} world cases')
+    return [parse_world_line(l) for l in outs]
+
+
+def scripted_worlds():
+    """(n0, [world ops]) -- generated against Python lists, so the scripts know where an iteration stops.
+    (1) every value-returning operation followed by every kind of mutator applied to the RESULT, then to the receiver, each time
+        re-observing both;  (2) the iteration protocol: nested loops over one object, zip(x, x), an iterator held across another
+        iteration, two iterators advanced alternately, iteration across mutation, exhausted iterators."""
+    cases = []
+    s1 = lambda t: ('s', (t,))
+    readers = [('G', 0), ('G', -1), ('S', None, None, None), ('S', 0, 1, None), ('S', None, None, -1), ('P', -1, 'default'), ('P', 0),
+               ('I',), ('RV',), ('CC',), ('CI',)]
+    mutators = lambda t: [('A', s1(t)), ('E', ('s', (t, t + 1))), ('N', 0, s1(t)), ('P', -1, 'default'), ('D', 0), ('T', 0, s1(t)), ('R',), ('C',)]
+    for n0 in range(5):
+        for rd in readers:
+            for mi in range(8):
+                lw = ListWorld(n0)
+                ops = [('O', 0, rd)]
+                lw.step(ops[0])
+                if len(lw.objs) > 1:
+                    ops += [('O', 1, mutators(50)[mi]), ('O', 0, ('L',)), ('O', 0, ('I',)), ('O', 0, mutators(60)[(mi + 3) % 8]), ('O', 1, ('I',))]
+                    if len(lw.objs) > 2:
+                        ops += [('O', 2, mutators(70)[mi]), ('O', 1, ('L',)), ('O', 0, ('L',))]
+                    cases.append((n0, ops))
+                elif mi == 0:
+                    cases.append((n0, ops))
+
+        def nexts(ops, lw, j):
+            """advance iterator j once; True if it produced an item"""
+            ops.append(('IX', j))
+            return lw.step(ops[-1])[0] == 1
+        # nested loops: [(a, b) for a in x for b in x]
+        lw, ops, nit = ListWorld(n0), [('IN', 0)], 1
+        lw.step(ops[0])
+        while nexts(ops, lw, 0):
+            ops.append(('IN', 0))
+            lw.step(ops[-1])
+            b, nit = nit, nit + 1
+            while nexts(ops, lw, b):
+                pass
+        cases.append((n0, ops))
+        # zip(x, x)
+        lw, ops = ListWorld(n0), [('IN', 0), ('IN', 0)]
+        lw.step(ops[0]), lw.step(ops[1])
+        while nexts(ops, lw, 0) and nexts(ops, lw, 1):
+            pass
+        cases.append((n0, ops))
+        # an iterator held across a full iteration, a reversed iteration and a slice of the same object
+        lw, ops = ListWorld(n0), [('IN', 0)]
+        lw.step(ops[0])
+        nexts(ops, lw, 0)
+        for o in (('I',), ('RV',), ('S', None, None, None), ('CI',)):
+            ops.append(('O', 0, o))
+            lw.step(ops[-1])
+        while nexts(ops, lw, 0):
+            pass
+        nexts(ops, lw, 0)
+        cases.append((n0, ops))
+        # iter() twice, advanced one after the other, then the object grows: an exhausted iterator stays exhausted
+        lw, ops = ListWorld(n0), [('IN', 0), ('IN', 0)]
+        lw.step(ops[0]), lw.step(ops[1])
+        while nexts(ops, lw, 0):
+            pass
+        nexts(ops, lw, 1)
+        ops.append(('O', 0, ('A', s1(80))))
+        lw.step(ops[-1])
+        nexts(ops, lw, 0)
+        while nexts(ops, lw, 1):
+            pass
+        cases.append((n0, ops))
+        # iteration across mutation: delete / insert at the front while iterating
+        for mut in (('D', 0), ('N', 0, s1(81)), ('R',), ('C',)):
+            lw, ops = ListWorld(n0), [('IN', 0)]
+            lw.step(ops[0])
+            nexts(ops, lw, 0)
+            ops.append(('O', 0, mut))
+            lw.step(ops[-1])
+            while nexts(ops, lw, 0):
+                pass
+            cases.append((n0, ops))
+        # iterating a RESULT while the receiver changes
+        lw, ops = ListWorld(n0), [('O', 0, ('S', None, None, None))]
+        lw.step(ops[0])
+        if len(lw.objs) > 1:
+            ops.append(('IN', 1))
+            lw.step(ops[-1])
+            nexts(ops, lw, 0)
+            ops.append(('O', 0, ('C',)))
+            lw.step(ops[-1])
+            while nexts(ops, lw, 0):
+                pass
+            cases.append((n0, ops))
+    return cases
+
+
+def random_world(rng, nsteps):
+    n0, draw_on = random_ops(rng, None)
+    lw, ops, nit = ListWorld(n0), [], 0
+    for _ in range(nsteps):
+        r = rng.random()
+        if r < 0.08 and nit < 4:
+            a = ('IN', int(rng.integers(0, len(lw.objs))) if rng.random() < 0.4 else 0)
+            nit += 1
+        elif r < 0.30 and nit > 0:
+            a = ('IX', int(rng.integers(0, nit)))
+        else:
+            t = 0 if rng.random() < 0.5 else int(rng.integers(0, len(lw.objs)))
+            a = ('O', t, draw_on(lw.objs[t]))
+        ops.append(a)
+        lw.step(a)
+    return n0, ops
+
+
+def run_world(ctx, k, n0, ops, mres, where):
+    """one history on the real class, the Python-list reference and the model/specification pair; stops at the first disagreement"""
+    iw, lw = ImplWorld(k, n0), ListWorld(n0)
+    for i, a in enumerate(ops):
+        I, L = wnorm(a, iw.step(a)), wnorm(a, lw.step(a))
+        M, S = wnorm(a, mres[i][0]), wnorm(a, mres[i][1])
+        name = OPNAME[a[2][0] if a[0] == 'O' else a[0]]
+        ctx.corr['cases'] += 1
+        ctx.count('world-steps')
+        if I == L == M == S:
+            continue
+        rp = {'class': k.name, 'start_length': n0, 'wops': [_js(o) for o in ops[:i + 1]], 'python': [wop_py(o) for o in ops[:i + 1]],
+              'failing_step': i, 'where': where, 'implementation': I, 'python_list': L, 'model': M, 'spec': S,
+              'encoding': 'result ([0] None, [1,n,tags] object, [2,n,(len,tags)..] objects, [3,n] int, [9,kind] raised: 1 IndexError 2 ValueError '
+                          '5 StopIteration 8 any, [64..] a result/another object shares state with the receiver); then len+tags of the addressed '
+                          'object afterwards; then the number of new objects and len+tags of each'}
+        if S != L:
+            ctx.fail(f'spec:world:{name}', f"the Coq specification (objects + list iterators) disagrees with real Python lists at {wop_py(a)}: spec {S} list {L}",
+                     rp, no_input=True)
+        if I != M:
+            ctx.corr['disagreements'] += 1
+            ctx.fail(f'corr:world:{name}', f"{k.name}: {wop_py(a)} gives {I}, the model says {M}", rp, no_input=(I == L))
+        if I != L:
+            what = 'a result shares state with another object' if I and I[0] == 64 else 'differs from Python lists / list iterators'
+            ctx.fail(f"oracle:world:{name}:{'shared-state' if I and I[0] == 64 else 'mismatch'}",
+                     f"{k.name}: in a history over several live objects and iterators, {wop_py(a)} {what}: got {I}, lists give {L}", rp)
+        return False
+    return True
+
+
+def world_histories(ctx, model, ks, nrand):
+    scripts = scripted_worlds()
+    ctx.stats['world-scripts-per-class'] = len(scripts)
+    mcache = {}
+    for k in ks:
+        if k.own not in mcache:
+            mcache[k.own] = model_world_run(model, k.own, scripts)
+        with ctx.timed('impl-world'):
+            for (n0, ops), mr in zip(scripts, mcache[k.own]):
+                ctx.case((k.name, 'world', n0, tuple(map(wop_tokens, ops))))
+                run_world(ctx, k, n0, ops, mr, 'world:scripted')
+        hs = [random_world(ctx.rng, 40 if j % 3 == 0 else int(ctx.rng.integers(2, 41))) for j in range(nrand)]
+        mres = model_world_run(model, k.own, hs)
+        with ctx.timed('impl-world'):
+            for (n0, ops), mr in zip(hs, mres):
+                ctx.case((k.name, 'world-random', n0, tuple(map(wop_tokens, ops))))
+                run_world(ctx, k, n0, ops, mr, 'world:random')
+        ctx.count('world-random-histories', nrand)
+    # vm_compute cross-check of the extracted world machine
+    xs = scripts[::max(1, len(scripts) // 25)] + hs[:10]
+    for own in sorted({k.own for k in ks}):
+        d = model_world_run(model, own, xs)
+        terms = [f"wlockstep (Build_cls {'true' if own else 'false'}) (wstart {n0}) [{'; '.join(wop_coq(a) for a in ops)}]" for n0, ops in xs]
+        vals = ctx.coq_eval(COQ_HEADER, terms, name='wxcheck', chunk=100)
+        for (n0, ops), dv, v in zip(xs, d, vals):
+            ll = parse_coq_ll(v)
+            exp = [(ll[i], ll[i + 1]) for i in range(0, len(ll), 2)]
+            ctx.count('extraction-crosscheck', len(exp))
+            if exp != dv:
+                ctx.fail('harness:extraction-vs-kernel', 'extracted OCaml world machine and vm_compute disagree on a history',
+                         {'start_length': n0, 'ops': [wop_py(a) for a in ops], 'driver': dv, 'kernel': exp}, no_input=True)
+    ctx.sample({'kind': 'world history (scripted: nested loops)', 'ops': [wop_py(a) for a in scripts[88][1][:14]] if len(scripts) > 88 else []})
+
+
 def probes(ctx, ks):
     """constructor paths that the model does not cover: a list containing a multi-valued or a foreign object must be rejected"""
     for k in ks:
@@ -803,6 +1186,8 @@ def run(ctx):
             exhaustive_sequences(ctx, model, cmp, ks, 4, 'small')
     with ctx.timed('random'):
         random_sequences(ctx, model, cmp, ks, ctx.n(250, 6000))
+    with ctx.timed('worlds'):
+        world_histories(ctx, model, ks, ctx.n(120, 2500))
     with ctx.timed('probes'):
         probes(ctx, ks)
     ctx.corr['functions'] = len(OPNAME)
@@ -812,6 +1197,21 @@ def replay(ctx, path):
     """re-run one recorded history on the real class, the model and a Python list"""
     rec = json.load(open(path))
     rp = rec.get('replay', {})
+    if 'wops' in rp:
+        k = {c.name: c for c in classes() + delegating_classes()}[rp['class']]
+        ops = [_unjs(o) for o in rp['wops']]
+        model = Model(ctx)
+        mres = model_world_run(model, k.own, [(rp['start_length'], ops)])[0]
+        run_world(ctx, k, rp['start_length'], ops, mres, 'replay')
+        iw, lw = ImplWorld(k, rp['start_length']), ListWorld(rp['start_length'])
+        print(f"class {k.name}, obj0 = {lw.objs[0]}")
+        for i, a in enumerate(ops):
+            print(f"  {wop_py(a):44s} implementation {wnorm(a, iw.step(a))}   lists {wnorm(a, lw.step(a))}   model {wnorm(a, mres[i][0])}")
+        if rec.get('key') in {f.key for f in ctx.findings}:
+            print(f"REPRODUCED {rec['key']}")
+            return 1
+        print(f"not reproduced: {rec.get('key')}")
+        return 0
     if 'ops' not in rp:
         from lib.main import generic_replay
         import props.C10 as me
